@@ -39,7 +39,7 @@ func sleepScenario(r *R) {
 func oneSleep(r *R) {
 	strict := r.Cfg.StallPer1k == 0 && r.Cfg.LatePer1k == 0
 	d := []time.Duration{50 * time.Millisecond, -time.Second, 0, time.Millisecond, 3 * time.Second, time.Hour}[r.Choose(6, "d")]
-	kind := r.Choose(9, "ctx") // 0 background, 1 deadline far, 2 deadline inside d, 3 deadline just inside, 4 deadline just beyond, 5 pre-cancelled, 6 cancelled mid-sleep, 7 deadline far AND cancelled mid-sleep, 8 deadline far AND already cancelled
+	kind := r.Choose(11, "ctx") // 9: cancelled mid-sleep with a cause of its own, 10: already cancelled with a cause; 0 background, 1 deadline far, 2 deadline inside d, 3 deadline just inside, 4 deadline just beyond, 5 pre-cancelled, 6 cancelled mid-sleep, 7 deadline far AND cancelled mid-sleep, 8 deadline far AND already cancelled
 	root := NewCtx(nil, "root")
 	var ctx *Ctx
 	var remaining time.Duration
@@ -72,6 +72,12 @@ func oneSleep(r *R) {
 		r.Fault("ctx_precancelled")
 	case 6:
 		ctx = NewCtx(root, "mid")
+	case 9, 10:
+		ctx = NewCauseCtx(root, "cause", NewErr("my-cause"))
+		if kind == 10 {
+			ctx.Cancel()
+			r.Fault("ctx_precancelled")
+		}
 	case 7, 8:
 		remaining = pos*2 + time.Duration(1+r.Choose(5, "far"))*time.Second
 		ctx = NewDeadlineCtx(root, "far-cancelled", remaining)
@@ -82,7 +88,7 @@ func oneSleep(r *R) {
 		}
 	}
 	cancelAfter := time.Duration(0)
-	if kind == 6 || kind == 7 {
+	if kind == 6 || kind == 7 || kind == 9 {
 		cancelAfter = pos / time.Duration(2+r.Choose(3, "cfrac"))
 		c := ctx
 		sim.GoNamed("canceller", func() {
@@ -142,7 +148,7 @@ func oneSleep(r *R) {
 				r.Violate("C20", "sleep/wrong-error", "SleepContext returned %v; the context's error is %v", err, ctx.C.Err())
 				break
 			}
-			if kind == 6 || kind == 7 {
+			if kind == 6 || kind == 7 || kind == 9 {
 				r.Probe("sleep-cancelled-midway")
 			}
 			at, _ := ctx.ExpiredAt()
